@@ -64,4 +64,23 @@ def handleExplain (j : Json) : Json :=
   | .ok c => obj [("merchant", .str c.merchant), ("category", .str c.category), ("subcategory", .str c.subcategory),
                   ("tags", .arr ((sortStrs c.tags).map Json.str).toArray)]
 
+/-- op `discoverlist`: the listing of `tally discover` on the model — same input as op `pipeline` -/
+def handleDiscoverList (j : Json) : Json :=
+  let o := oraclesOf (tableOfJson (jget j "oracle"))
+  let rbj := jget j "rulebook"
+  let rb : Rulebook :=
+    { mode := if jstr rbj "mode" == "most_specific" then Mode.mostSpecific else Mode.firstMatch
+      variables := namedExprs (jget rbj "variables"), transforms := namedExprs (jget rbj "transforms"),
+      rules := (jarr rbj "rules").map ruleXOfJson, hasEngine := jbool rbj "has_engine" }
+  let rows : List Row := (jarr j "sources").foldl (fun acc sj =>
+    if jbool sj "supplemental" then acc else
+    match csvParseJson sj with
+    | .error _ => acc                              -- cmd_discover: `except Exception: continue`
+    | .ok txns => acc ++ txns.map rowOfCsv) []
+  match discoverRows o (fnNames j) modelKey (pairsVal (jget j "supp")) rb rows with
+  | .error e => errJson e
+  | .ok listed =>
+    obj [("transactions", .num rows.length),
+         ("listed", .arr (listed.map fun (raw, cnt, tot) => Json.arr #[.str raw, .num cnt, floatToJson tot]).toArray)]
+
 end TallyVerif.Driver
